@@ -41,6 +41,10 @@ ExtraZones == {
   \* an ENT that leads only to an insecure delegation, a secure one next to it
   Recs(<<la, lb, ex>>, {T_NS}) \cup Recs(<<la, la, lb, ex>>, {T_A}) \cup Recs(<<lb, la, ex>>, {T_NS, T_DS})
     \cup Recs(<<lb, lb, la, ex>>, {T_A}) \cup Recs(<<Star, ex>>, {T_A, T_CAA}),
+  \* a chain of two ENTs below a data-owning name that is not the apex
+  \* (a.b.a.b.ex with data at b.ex: ENTs a.b.ex and b.a.b.ex), next to an
+  \* ENT chain hanging off the apex
+  Recs(<<lb, ex>>, {T_A}) \cup Recs(<<la, lb, la, lb, ex>>, {T_A}) \cup Recs(<<lb, lb, la, ex>>, {T_TXT}),
   \* a delegation below a delegation, data at a cut, wildcard below an ENT
   Recs(<<la, ex>>, {T_NS, T_A}) \cup Recs(<<lb, la, ex>>, {T_NS, T_DS}) \cup Recs(<<la, lb, la, ex>>, {T_A})
     \cup Recs(<<Star, lb, lb, ex>>, {T_A}) \cup Recs(<<la>>, {T_A}) }
